@@ -76,3 +76,30 @@ Theorem C09_buffer_address_refetch_refuted :
   end.
 Proof. exact buffer_address_refetch_refuted. Qed.
 Print Assumptions C09_buffer_address.
+
+(* copy_and_verify_string / copy_and_verify_range on a pointer that itself lies in SANDBOX memory (a tainted_volatile<T*>):
+   the pointer is fetched ONCE (fix: commit for D18), then the routine for a pointer held in application memory runs on
+   that copy: the same guarantees, for every adversary schedule that also rewrites the pointer cell *)
+Theorem C09_string_cell : forall sc woff w cell m t buf m' t',
+  vrun sc (cv_string_unique_cell woff w cell) m t = Ok (Some buf, m', t') ->
+  exists off n, length buf = S n /\ (off + S n <= w)%nat /\
+            nth n buf 1 = 0 /\ exists k, cstrlen buf = Some k /\ (k <= n)%nat.
+Proof. exact string_unique_cell_terminated. Qed.
+Print Assumptions C09_string_cell.
+Theorem C09_string_std_cell : forall sc woff w cell m t s m' t',
+  vrun sc (cv_string_std_cell woff w cell) m t = Ok (s, m', t') ->
+  s = [] \/ exists off len, length s = len /\ (off + S len <= w)%nat.
+Proof. exact string_std_cell_length. Qed.
+Theorem C09_range_cell : forall sc woff w elsz cell count m t es m' t',
+  vrun sc (cv_range_cell woff w elsz cell count) m t = Ok (Some es, m', t') ->
+  exists off, length es = count /\ Forall (fun e => length e = elsz) es /\ (off + count * elsz <= w)%nat /\ count <> 0%nat.
+Proof. exact range_cell_shape. Qed.
+(* fixed defect D18 (regression witness): with the cell fetched again for the range check and per element, a sandbox that
+   nulls the cell after the string was measured makes the library write the terminator through a null buffer *)
+Theorem C09_string_cell_before_fix_refuted :
+  let woff := fun r : Z => if (248 <=? r) && (r <? 256) then Some (Z.to_nat (r - 248)) else None in
+  let m0 := [252; 0; 0; 0; 65; 66; 0; 88] in
+  let sc := fun i : nat => match i with 2%nat => [(0%nat, 0)] | _ => [] end in
+  vrun sc (cv_string_unique_cell_refetch woff 256 8 0) m0 0 = Fault /\
+  (exists r, vrun sc (cv_string_unique_cell woff 8 0) m0 0 = Ok r /\ fst (fst r) = Some [65; 66; 0]).
+Proof. exact string_unique_cell_refetch_refuted. Qed.
